@@ -1,6 +1,7 @@
 CONSTANTS
   Tier = "quick"
   SwResetCanCatchField = TRUE
+  SwResetCanCatchElem = TRUE
   SwResetExitFieldP = TRUE
   SwResetExitFieldV = TRUE
   SwResetExitElemP = TRUE
